@@ -1,0 +1,55 @@
+// Licensed to Elasticsearch B.V. under one or more contributor
+// license agreements. See the NOTICE file distributed with
+// this work for additional information regarding copyright
+// ownership. Elasticsearch B.V. licenses this file to you under
+// the Apache License, Version 2.0 (the "License"); you may
+// not use this file except in compliance with the License.
+// You may obtain a copy of the License at
+//
+//     http://www.apache.org/licenses/LICENSE-2.0
+//
+// Unless required by applicable law or agreed to in writing,
+// software distributed under the License is distributed on an
+// "AS IS" BASIS, WITHOUT WARRANTIES OR CONDITIONS OF ANY
+// KIND, either express or implied.  See the License for the
+// specific language governing permissions and limitations
+// under the License.
+
+//go:build linux && verif
+
+package libaudit
+
+import (
+	"io"
+	"syscall"
+)
+
+// VerifSocket replaces the sendto/recvfrom/close system calls of a
+// NetlinkClient created with NewVerifNetlinkClient. It only takes effect in
+// builds with the "verif" tag.
+type VerifSocket interface {
+	Sendto(p []byte, flags int, to syscall.Sockaddr) error
+	Recvfrom(p []byte, flags int) (n int, from syscall.Sockaddr, err error)
+	Close() error
+}
+
+type verifNetlinkState struct {
+	sock VerifSocket
+}
+
+func (c *NetlinkClient) verifSocket() VerifSocket { return c.verif.sock }
+
+// NewVerifNetlinkClient returns a NetlinkClient whose system calls go to
+// sock instead of a real socket. pid is the port ID the kernel would have
+// assigned to the socket.
+func NewVerifNetlinkClient(sock VerifSocket, pid uint32, readBuf []byte, resp io.Writer) *NetlinkClient {
+	return &NetlinkClient{
+		fd:         -1,
+		src:        &syscall.SockaddrNetlink{Family: syscall.AF_NETLINK},
+		dest:       &syscall.SockaddrNetlink{},
+		pid:        pid,
+		readBuf:    readBuf,
+		respWriter: resp,
+		verif:      verifNetlinkState{sock: sock},
+	}
+}
